@@ -8,9 +8,9 @@
     population of client threads, so every theorem below holds for all populations and all interleavings.
     The model is tied to the real code by lock-step replay (bin/check C01).
     Derived notions: Mailbox/MbSpec.v, Mailbox/MbSpec2.v.  Statements only; proofs in Mailbox/MbInv.v and
-    Mailbox/MbLive.v. *)
+    Mailbox/MbLive.v, Mailbox/MbTerm.v. *)
 From Coq Require Import List NArith ZArith Bool Permutation.
-From Vivid Require Import Mailbox.MbModel Mailbox.MbSpec Mailbox.MbSpec2 Mailbox.MbInv Mailbox.MbLive.
+From Vivid Require Import Mailbox.MbModel Mailbox.MbSpec Mailbox.MbSpec2 Mailbox.MbInv Mailbox.MbLive Mailbox.MbTerm.
 Import ListNotations.
 Local Open Scope Z_scope.
 
@@ -116,6 +116,26 @@ Theorem C01_no_spin s :
   forall sched, (effective_steps sched s <= 11 * processors s)%nat.
 Proof. exact (no_spin s). Qed.
 
+(** general termination: whatever the client threads and the schedule, an execution has at most
+    64 * (#client operations + 1)^2 effective steps - no livelock, in particular no goroutine loops for ever
+    (the bound is quadratic because k processors may each run one empty round per message) *)
+Theorem C01_termination ths sched :
+  forallb env_pc ths = true ->
+  (effective_steps sched (init ths) <= 64 * (length ths + 1) * (length ths + 1))%nat.
+Proof. exact (termination ths sched). Qed.
+
+(** every execution can be continued to a state in which every goroutine has finished ... *)
+Theorem C01_can_finish s :
+  reachable s -> exists sched, terminal (run sched s).
+Proof. exact (can_finish s). Qed.
+
+(** ... and the states on the way stay reachable, so [C01_terminal] applies to that final state: with
+    [C01_termination] (no infinite execution) every execution under a scheduler that keeps running enabled
+    goroutines ends in a state where everything processable has been handled *)
+Theorem C01_reachable_continue s sched :
+  reachable s -> reachable (run sched s).
+Proof. exact (reachable_continue s sched). Qed.
+
 (** ============================ non-vacuity ============================ *)
 
 (** a reachable state with status = processing and two queued user messages *)
@@ -183,3 +203,6 @@ Print Assumptions C01_terminal.
 Print Assumptions C01_resume_drains.
 Print Assumptions C01_terminal_all_handled.
 Print Assumptions C01_no_spin.
+Print Assumptions C01_termination.
+Print Assumptions C01_can_finish.
+Print Assumptions C01_reachable_continue.
